@@ -327,7 +327,7 @@ pub fn run(run: &Run) {
 	let opts = Opts::default();
 	run.enumerate("collector-cycle-shapes", CYCLE_SHAPES.len() as u64, |i| collector_case(CYCLE_SHAPES[i as usize], &opts, true));
 	run.enumerate("collector-cli", CYCLE_SHAPES.len() as u64, |i| cli_gc_case(CYCLE_SHAPES[i as usize]));
-	let n = run.tier.pick(3_000, 80_000);
+	let n = run.tier.pick(9_000, 90_000);
 	run.explore("collector-programs", n, 20..=400, |src| {
 		let p = gen_eval::program(src, 5, 60, 10, 0, 0);
 		let e = p.closed();
@@ -335,7 +335,7 @@ pub fn run(run: &Run) {
 		let cyclic = p.stats.recursion || p.stats.mutual || code.contains("self") || code.contains('$');
 		collector_case(&code, &Opts::default(), cyclic)
 	});
-	let n = run.tier.pick(300, 5_000);
+	let n = run.tier.pick(900, 9_000);
 	run.explore("collector-stack-limited", n, 20..=200, |src| {
 		let p = gen_eval::program(src, 5, 60, 5, 0, 0);
 		let code = format!("local deep(n) = if n == 0 then {} else [deep(n - 1)]; deep(500)", ast::print_eval(&p.closed()));
@@ -343,7 +343,7 @@ pub fn run(run: &Run) {
 	});
 	// (the same length bound in both tiers, so that a saved tape decodes identically on replay)
 	let max = 120;
-	let n = run.tier.pick(8_000, 500_000);
+	let n = run.tier.pick(24_000, 500_000);
 	run.explore("interner-sequences", n, 10..=500, |src| interner_case(src, max));
 	run.require_class("handover", 500);
 	run.require_class("re-interned", 1000);
